@@ -1,0 +1,11 @@
+//go:build verif
+
+package cachedinstances
+
+// Contracts checked by /verif/gvc. Comment-only file (build tag verif).
+
+// Get (C13): the provider factory receives the configuration object it was given (the provider picks its own
+// sub-section itself), and the version string.
+//@ func Get
+//@   callsite f requires arg0 == caller(v) && arg2 == caller(version)
+//@   modifies everything
